@@ -693,8 +693,8 @@ func (p *Program) pfPath(parent map[*ssa.BasicBlock]*ssa.BasicBlock, to *ssa.Bas
 // "The loop checks every element and returns without error only when it is exhausted"
 
 type pfLoopSpec struct {
-	IsCheck    func(*ssa.Call) bool      // the per-element call
-	Collection func(v ssa.Value) bool    // the value whose length bounds the loop must derive from a value satisfying this
+	IsCheck    func(*ssa.Call) bool        // the per-element call
+	Collection func(v ssa.Value) bool      // the value whose length bounds the loop must derive from a value satisfying this
 	Element    func(c *ssa.Call) ssa.Value // the operand of the call that must be the loop element
 	CollName   string
 }
